@@ -158,7 +158,7 @@ def read_transcript(path):
 
 
 def run_session(bins, home, typ, fe, verb, sim, name="router", tag="s", wait=True, extra_env=None,
-                code_arg=None):
+                code_arg=None, verb_arg=None):
     """Run one real session.  sim: scenario dict for consim (console types).  Returns a result dict
     (or the Popen object when wait=False)."""
     log = os.path.join(home, "transcript-%s.ndjson" % tag)
@@ -189,7 +189,7 @@ def run_session(bins, home, typ, fe, verb, sim, name="router", tag="s", wait=Tru
         cmd = [os.path.join(bins, "drc")] + (["-C"] if verb == "compare" else []) + \
               ["-L", os.path.join(home, "logs"), code_arg or os.path.join(home, "policies", "p1", "code", name)]
     else:
-        cmd = [os.path.join(bins, "do-approve"), verb, name]
+        cmd = [os.path.join(bins, "do-approve"), verb_arg or verb, name]
     p = subprocess.Popen(cmd, cwd=home, env=env, stdin=subprocess.DEVNULL, stdout=subprocess.PIPE,
                          stderr=subprocess.PIPE, text=True)
     if not wait:
